@@ -16,7 +16,7 @@ LEAN = os.path.join(VERIF, "lean")
 CACHE = os.path.join(LEAN, ".lake", "exttie")
 DEPS = ["Rngs/Model/Words.lean", "Rngs/Model/RandCore.lean", "Rngs/Model/Xoshiro.lean", "Rngs/Model/XorShift.lean", "Rngs/Model/Jitter.lean", "Rngs/Model/Hc128.lean",
         "Rngs/Model/Isaac.lean", "Rngs/Lib/XorLinear.lean", "Rngs/Lib/ExtTie.lean", "Rngs/Lib/ExtTieBlock.lean", "Rngs/Lib/ExtTieShapes.lean",
-        "Rngs/Lib/ExtTieJitter.lean"]
+        "Rngs/Lib/ExtTieJitter.lean", "Rngs/Lib/ExtTieRc.lean"]
 ALLOWED_AXIOMS = {"propext", "Classical.choice", "Quot.sound"}
 
 def dep_hash():
